@@ -19,6 +19,7 @@ package configmap
 import (
 	"fmt"
 	"regexp"
+	"sort"
 	"strconv"
 	"strings"
 
@@ -71,7 +72,18 @@ func (c *tcpSvcConverter) Sync() {
 	if tcpservices == nil {
 		tcpservices = c.changed.TCPConfigMapDataCur
 	}
-	for k, v := range tcpservices {
+	// The keys are visited in a stable order and a port declared more than once,
+	// "9000" and "09000" are the same port, is configured by the first valid
+	// declaration only. Otherwise the declarations would be merged in a single
+	// backend whose name and options depend on the iteration order of the map.
+	keys := make([]string, 0, len(tcpservices))
+	for k := range tcpservices {
+		keys = append(keys, k)
+	}
+	sort.Strings(keys)
+	ports := make(map[int]string, len(keys))
+	for _, k := range keys {
+		v := tcpservices[k]
 		publicport, err := strconv.Atoi(k)
 		if err != nil {
 			c.logger.Warn("skipping invalid public listening port of TCP service: %s", k)
@@ -125,6 +137,11 @@ func (c *tcpSvcConverter) Sync() {
 					checkInterval, publicport, svc.checkInt)
 			}
 		}
+		if first, found := ports[publicport]; found {
+			c.logger.Warn("skipping TCP service on public port %d: key '%s' declares the same port as key '%s'", publicport, k, first)
+			continue
+		}
+		ports[publicport] = k
 		servicename := fmt.Sprintf("%s_%s", service.Namespace, service.Name)
 		backend := c.haproxy.TCPBackends().Acquire(servicename, publicport)
 		for _, addr := range addrs {
